@@ -146,6 +146,15 @@ func (v *Vue) evalBoundAttribute(ctx VueContext, attrName, expr string) (any, er
 
 	// Check if the expression is an object literal
 	if strings.HasPrefix(expr, "{") && strings.HasSuffix(expr, "}") {
+		if attrName != "class" && attrName != "style" {
+			// an object given to anything else (a component prop: :user="{name: n, age: 3}") is
+			// a value of its own: a map of its keys with their typed values
+			obj := make(map[string]any)
+			for _, p := range v.parseObjectPairs(ctx, strings.TrimSpace(expr)[1:len(strings.TrimSpace(expr))-1]) {
+				obj[p.key] = p.val
+			}
+			return obj, nil
+		}
 		return v.evalObjectBinding(ctx, attrName, expr), nil
 	}
 
